@@ -32,23 +32,40 @@ def dir_val(d):
 
 
 class OrdHarness(Harness):
-    """decides comparisons between two symbolic operands by a fixed ordering oracle"""
+    """decides comparisons between the two named operands (bit vectors `left`, `right`, e.g. a k-mer's storage and its reverse
+    complement's) by a fixed ordering oracle; any other undecided comparison stays undecided"""
 
-    def __init__(self, order):
-        self.order = order  # '<' '=' '>'
+    def __init__(self, order, left=None, right=None):
+        self.order = order  # '<' '=' '>'   (left ? right)
+        self.left = list(left) if left is not None else None
+        self.right = list(right) if right is not None else None
         self.asked = 0
 
-    def _dec(self, op):
-        o = self.order
-        return {"Eq": o == "=", "Ne": o != "=", "Lt": o == "<", "Le": o in "<=", "Gt": o == ">", "Ge": o in ">="}[op]
+    def _orient(self, a, b):
+        if self.left is None:
+            return 1
+        ba, bb = list(a.getbits()), list(b.getbits())
+        if ba == self.left and bb == self.right:
+            return 1
+        if ba == self.right and bb == self.left:
+            return -1
+        return 0
 
     def unknown_compare(self, it, op, a, b):
+        o_ = self._orient(a, b)
+        if o_ == 0:
+            return None
         self.asked += 1
-        return self._dec(op)
+        o = self.order if o_ == 1 else {"<": ">", "=": "=", ">": "<"}[self.order]
+        return {"Eq": o == "=", "Ne": o != "=", "Lt": o == "<", "Le": o in "<=", "Gt": o == ">", "Ge": o in ">="}[op]
 
     def unknown_cmp(self, it, a, b):
+        o_ = self._orient(a, b)
+        if o_ == 0:
+            return None
         self.asked += 1
-        return {"<": 0, "=": 1, ">": 2}[self.order]
+        o = self.order if o_ == 1 else {"<": ">", "=": "=", ">": "<"}[self.order]
+        return {"<": 0, "=": 1, ">": 2}[o]
 
 
 class KType:
@@ -348,7 +365,7 @@ def kmer_lemmas(F, rep, tystr, which=None, slice_cap=32):
             rc_spec[hi], rc_spec[lo] = t_not(S[shi]), t_not(S[slo])
         for order in "<=>":
             def f(order=order):
-                h = OrdHarness(order)
+                h = OrdHarness(order, S, rc_spec)
                 r, _ = run_inst(F, kt.key("Kmer", "min_rc_flip"), [self_ref()], h)
                 rep.evaluations += 1
                 if not isinstance(r, Tup):
@@ -368,7 +385,7 @@ def kmer_lemmas(F, rep, tystr, which=None, slice_cap=32):
             guarded(rep, "L-canon", "%s/min_rc_flip/%s" % (tag, order), "min_rc_flip", f)
 
             def g(order=order):
-                h = OrdHarness(order)
+                h = OrdHarness(order, S, rc_spec)
                 r, _ = run_inst(F, kt.key("Kmer", "min_rc"), [self_ref()], h)
                 want_flip = order != "<"
                 expect_bits(rep, "L-canon", "%s/min_rc/%s" % (tag, order), kt.storage_of(r),
@@ -376,21 +393,103 @@ def kmer_lemmas(F, rep, tystr, which=None, slice_cap=32):
                             "min_rc returns the smaller of self and rc (self %s rc)" % order)
             guarded(rep, "L-canon", "%s/min_rc/%s" % (tag, order), "min_rc", g)
 
-            def p(order=order):
-                h = OrdHarness(order)
+        def pal():
+            """is_palindrome ⇔ K even ∧ self = rc(self), whatever way it is computed: comparisons of the whole k-mer with its reverse
+            complement and comparisons of single bases (base i with the complement of base j) are oracles; `true` may only be returned
+            when the comparisons made establish equality of every pair (i, K-1-i), `false` only when one of them failed (or K is odd)"""
+            from .dt import Oracles, explore
+
+            def lane_of(v, negated):
+                bits = list(v.getbits())
+                if any(x != ZERO for x in bits[2:]):
+                    return None
+                for j in range(K):
+                    hi, lo = kt.lane_bits(j)
+                    lo_t, hi_t = (t_not(S[lo]), t_not(S[hi])) if negated else (S[lo], S[hi])
+                    if bits[0] == lo_t and bits[1] == hi_t:
+                        return j
+                return None
+
+            class PalH(Oracles):
+                def whole(self, a, b):
+                    ba, bb = list(a.getbits()), list(b.getbits())
+                    return (ba == list(S) and bb == rc_spec) or (ba == rc_spec and bb == list(S))
+
+                def unknown_compare(self, it, op, a, b):
+                    if op in ("Eq", "Ne") and a.w == W and self.whole(a, b):
+                        eq = self.choose("self==rc", (True, False))
+                        return eq if op == "Eq" else not eq
+                    if a.w == W and self.whole(a, b):
+                        o = self.choose("ord(self,rc)", ("<", "=", ">"))
+                        if list(a.getbits()) != list(S):
+                            o = {"<": ">", "=": "=", ">": "<"}[o]
+                        return {"Lt": o == "<", "Le": o in "<=", "Gt": o == ">", "Ge": o in ">="}[op]
+                    if op in ("Eq", "Ne"):
+                        for x, y in ((a, b), (b, a)):
+                            i, j = lane_of(x, False), lane_of(y, True)
+                            if i is not None and j is not None:
+                                eq = self.choose("base%d==compl(base%d)" % (i, j), (True, False))
+                                return eq if op == "Eq" else not eq
+                    return None
+
+                def unknown_cmp(self, it, a, b):
+                    if a.w == W and self.whole(a, b):
+                        o = self.choose("ord(self,rc)", ("<", "=", ">"))
+                        if list(a.getbits()) != list(S):
+                            o = {"<": ">", "=": "=", ">": "<"}[o]
+                        return {"<": 0, "=": 1, ">": 2}[o]
+                    return None
+
+            def run(h):
                 r, _ = run_inst(F, kt.key("Kmer", "is_palindrome"), [self_ref()], h)
+                return r
+            bad, inc, rows = None, None, 0
+            for a, out, h in explore(lambda script: PalH(script), run, max_runs=4000):
+                rows += 1
                 rep.evaluations += 1
-                want_p = (K % 2 == 0) and order == "="
-                if isinstance(r, Int) and r.is_conc():
-                    if bool(r.val) == want_p:
-                        rep.holds("L-canon", "%s/is_palindrome/%s" % (tag, order), "is_palindrome ⇔ K even ∧ self = rc")
+                if isinstance(out, tuple) and out and out[0] in ("inconclusive", "diverge"):
+                    if out[0] == "diverge":
+                        bad = bad or ("is_palindrome diverges: %s" % out[1], a)
                     else:
-                        rep.violated("L-canon", "%s/is_palindrome/%s" % (tag, order),
-                                     "is_palindrome returns %s when self %s rc(self), K=%d" % (bool(r.val), order, K),
-                                     witness={"kind": "row", "row": {"ord(self,rc)": order, "K": K}, "got": bool(r.val), "spec": want_p})
-                else:
-                    rep.inconclusive("L-canon", "%s/is_palindrome/%s" % (tag, order), "undetermined result %r" % (r,))
-            guarded(rep, "L-canon", "%s/is_palindrome/%s" % (tag, order), "is_palindrome", p)
+                        inc = inc or out[1]
+                    continue
+                if not (isinstance(out, Int) and out.is_conc()):
+                    inc = inc or ("undetermined result %r" % (out,))
+                    continue
+                val = bool(out.val)
+                whole_eq = a.get("self==rc")
+                if whole_eq is None and "ord(self,rc)" in a:
+                    whole_eq = a["ord(self,rc)"] == "="
+                pairs = {}
+                for k_, v_ in a.items():
+                    if k_.startswith("base") and "==compl(base" in k_:
+                        i = int(k_[4:k_.index("==")])
+                        j = int(k_[k_.index("(base") + 5:-1])
+                        pairs[(i, j)] = v_
+                if K % 2 == 1:
+                    if val:
+                        bad = bad or ("is_palindrome returns true for odd K = %d (an odd-length k-mer never equals its reverse complement)" % K, a)
+                    continue
+                # what the comparisons made establish
+                proven_equal = whole_eq is True or all(pairs.get((i, K - 1 - i)) is True or pairs.get((K - 1 - i, i)) is True for i in range(K // 2))
+                refuted = whole_eq is False or any(v_ is False and i + j == K - 1 for (i, j), v_ in pairs.items())
+                stray = [(i, j) for (i, j) in pairs if i + j != K - 1]
+                if stray:
+                    bad = bad or ("is_palindrome compares base %d with the complement of base %d (not a mirror pair)" % stray[0], a)
+                elif val and not proven_equal:
+                    missing = [i for i in range(K // 2) if not (pairs.get((i, K - 1 - i)) or pairs.get((K - 1 - i, i)))]
+                    bad = bad or ("is_palindrome returns true although the mirror pair(s) %s were never compared (K = %d): a k-mer that differs from its reverse "
+                                  "complement only there is reported palindromic" % ([(i, K - 1 - i) for i in missing][:3], K), a)
+                elif (not val) and not refuted:
+                    bad = bad or ("is_palindrome returns false although every comparison it made found equality (K = %d)" % K, a)
+            key = "%s/is_palindrome" % tag
+            if bad:
+                rep.violated("L-canon", key, bad[0], witness={"kind": "row", "row": {k_: str(v_) for k_, v_ in bad[1].items()}})
+            elif inc:
+                rep.inconclusive("L-canon", key, "is_palindrome: %s" % inc)
+            else:
+                rep.holds("L-canon", key, "is_palindrome ⇔ K even ∧ self = rc(self) (%d outcome rows)" % rows)
+        guarded(rep, "L-canon", "%s/is_palindrome" % tag, "is_palindrome", pal)
 
     # bucket (C05.2)
     if want("bucket") and K >= 4:
@@ -944,7 +1043,7 @@ def dnastring_lemmas(F, rep, which=None, maxn=70, ktypes=None, kmer_positions=No
     try:
         dt = DnaT(F)
     except Unsupported as e:
-        rep.violated("L-dna", "DnaString", str(e), witness={"kind": "anchor-missing"})
+        rep.inconclusive("L-dna", "DnaString", "role discovery: %s" % e)
         return
 
     def spec_after(n0, added_src, m):
@@ -1006,7 +1105,13 @@ def dnastring_lemmas(F, rep, which=None, maxn=70, ktypes=None, kmer_positions=No
 
     if want("extend"):
         def ext_key():
-            return first_inst(F, "dna_string::DnaString::extend::<std::iter::Cloned<")
+            # any instance of the generic `extend` whose iterator yields the bytes of a slice by value (which adapter is used is the
+            # caller's business: `.iter().cloned()`, `.iter().copied()`, …)
+            for pre in ("dna_string::DnaString::extend::<std::iter::Cloned<std::slice::Iter<", "dna_string::DnaString::extend::<std::iter::Copied<std::slice::Iter<"):
+                ks = sorted(k for k in F.insts if k.startswith(pre))
+                if ks:
+                    return ks[0]
+            raise Unsupported("no instance of DnaString::extend over a by-value slice iterator is compiled into the crate")
         for n0 in (0, 1, 31, 32, 33):
             for m in range(0, maxn + 1):
                 def f(n0=n0, m=m):
@@ -1199,7 +1304,7 @@ def dnastring_render_lemmas(F, rep, rule="L-dna-text", lengths=(0, 1, 2, 31, 32,
     try:
         dt = DnaT(F)
     except Unsupported as e:
-        rep.violated(rule, "DnaString", str(e), witness={"kind": "anchor-missing"})
+        rep.inconclusive(rule, "DnaString", "role discovery: %s" % e)
         return
 
     H = render_harness()
@@ -1291,7 +1396,7 @@ def slice_exact_lemmas(F, rep, rule="C15.1", nback=70, quick=True):
     try:
         dt = DnaT(F)
     except Unsupported as e:
-        rep.violated(rule, "DnaString", str(e), witness={"kind": "anchor-missing"})
+        rep.inconclusive(rule, "DnaString", "role discovery: %s" % e)
         return
     flds = [f["name"] for f in F.adts.get(SLICE_T, {}).get("variants", [{}])[0].get("fields", [])] if hasattr(F, "adts") else []
     order = flds if sorted(flds) == sorted(["dna_string", "start", "length", "is_rc"]) else ["dna_string", "start", "length", "is_rc"]
@@ -1705,7 +1810,7 @@ def dnastring_order_lemmas(F, rep, rule="C14.4"):
     try:
         dt = DnaT(F)
     except Unsupported as e:
-        rep.violated(rule, "DnaString", str(e), witness={"kind": "anchor-missing"})
+        rep.inconclusive(rule, "DnaString", "role discovery: %s" % e)
         return
     ORDN = "std::cmp::Ordering"
 
